@@ -56,8 +56,9 @@ CLAIMS = {
  },
  'C16': {
   'category': 'proof',
-  'technique': 'Lean 4 proof of the offset-to-(line,column) lookup (binary search invariant, no underflow for any table) + differential correspondence on rejected inputs + location oracle',
-  'text': 'binarySearch_sorted, lineInfo_sorted, lineInfo_total, lineInfo_profile: for every sorted line table and offset the column is the true column, the line is the true line minus one from line 2 on (known finding K2, pinned by a unit test; stated as theorem and counterexample), '
+  'technique': 'Lean 4 proof of the offset-to-(line,column) lookup (binary search invariant, no underflow for any table) and whole-parser invariant that every error value carries line_info of an offset (the offending token`s for unexpected-token errors) + differential correspondence on rejected inputs + location oracle',
+  'text': 'parseFile_error_located (Props/HoareMain.lean): for every text, profile and fuel, an error returned by parse_file is an error value whose (line, column) is line_info(offset) on the table as it stands, the offset being the actual token`s for Error::UnexpectedToken (ErrOK carried through every production, including the errors re-thrown after parse_next_level_expr`s decrement). '
+          'binarySearch_sorted, lineInfo_sorted, lineInfo_total, lineInfo_profile: for every sorted line table and offset the column is the true column, the line is the true line minus one from line 2 on (known finding K2, pinned by a unit test; stated as theorem and counterexample), '
           'and the lookup never panics or wraps for any table. The rest of the property (crate error type, path, location of the unexpected token, Display returns) is decided on rejected inputs (mutated corpus programs, soup, unterminated tokens at every line, multi-line tokens and backtracking before the error, nesting 62-200) '
           'by model/implementation correspondence on (variant, line, col, token) and an oracle that looks the token text up at the reported place; partial proof.'
           ' Props/Lines.lean: linesOK_next / linesOK_goback (every successful scanner step and every backtracking keeps the line table exactly the offsets after the newlines before the scanner position), sorted_of_linesOK, lineOf_reachable, mem_lines: the sortedness hypothesis holds in every reachable scanner state.',
